@@ -378,7 +378,7 @@ func (e *fdEngine) terms(fn *ssa.Function) []*fdTerm {
 		if !ok {
 			return
 		}
-		noEOF := e.noEOF || what == "bufio.Scanner.Err" || e.mode == fdAll && !e.isStreamSource(call)
+		noEOF := e.noEOF || what == "bufio.Scanner.Err" || what == "aio.Open" || e.mode == fdAll && !e.isStreamSource(call)
 		vals := errValuesOf(call)
 		if len(vals) == 0 {
 			out = append(out, &fdTerm{val: nil, def: call, call: call, what: what + " (error result discarded)", alias: map[ssa.Value]bool{}, noEOF: noEOF})
